@@ -589,7 +589,7 @@ fn quq_audit<S: System>(sys: &S, m: u32, tail: u32, hist: &mut Vec<Step>, cx: &m
             }
             cx.halt = false;
         }
-        quq_updates(sys, m, tail, hist, cx, out, sh);
+        quq_updates(sys, m, tail, q1, hist, cx, out, sh);
         hist.truncate(n0);
         if sh.stop.load(Ordering::Relaxed) {
             return;
@@ -597,7 +597,7 @@ fn quq_audit<S: System>(sys: &S, m: u32, tail: u32, hist: &mut Vec<Step>, cx: &m
     }
 }
 
-fn quq_updates<S: System>(sys: &S, left: u32, tail: u32, hist: &mut Vec<Step>, cx: &mut Cx, out: &mut WorkerOut, sh: &Shared) {
+fn quq_updates<S: System>(sys: &S, left: u32, tail: u32, first_q: Option<u32>, hist: &mut Vec<Step>, cx: &mut Cx, out: &mut WorkerOut, sh: &Shared) {
     // the prefix in `hist` has been validated step by step on the way here (or is replayed muted)
     cx.muted = true;
     let base = rebuild(sys, hist, cx);
@@ -649,8 +649,12 @@ fn quq_updates<S: System>(sys: &S, left: u32, tail: u32, hist: &mut Vec<Step>, c
             } else if tail > 1 && !cx.halt {
                 // a second trailing query after the first one (a memo refreshed or a flag consumed by the
                 // first may leave the second with a stale answer)
-                let qs2 = sys.query_ops(&o2);
+                let mut qs2 = sys.query_ops(&o2);
                 drop(o2);
+                if tail == 3 {
+                    // "repeat" mode: the second trailing query is the leading query again
+                    qs2.retain(|q| Some(*q) == first_q);
+                }
                 for q3 in qs2 {
                     cx.muted = true;
                     let r = rebuild(sys, hist, cx);
@@ -674,7 +678,7 @@ fn quq_updates<S: System>(sys: &S, left: u32, tail: u32, hist: &mut Vec<Step>, c
             hist.pop();
         }
         if left > 1 {
-            quq_updates(sys, left - 1, tail, hist, cx, out, sh);
+            quq_updates(sys, left - 1, tail, first_q, hist, cx, out, sh);
         }
         hist.pop();
         if sh.stop.load(Ordering::Relaxed) {
